@@ -1403,7 +1403,11 @@ insert_list:
         rq.current->error_number = 0;
         auto sw = AtomicRunQ(rq).goto_next();
         switch_context(sw.from, sw.to);
-        return rq.current->error_number;
+        // the interrupt is consumed by reporting it; if left pending, it
+        // would be delivered once more to a later, unrelated sleep
+        auto en = rq.current->error_number;
+        rq.current->error_number = 0;
+        return en;
     }
 
     __attribute__((noinline))
@@ -1436,7 +1440,9 @@ insert_list:
         if_update_now();
         rq.current->error_number = 0;
         switch_context(sw.from, sw.to);
-        return rq.current->error_number;
+        auto en = rq.current->error_number;
+        rq.current->error_number = 0;
+        return en;
     }
 
     __attribute__((always_inline)) inline
